@@ -175,6 +175,43 @@ __wrap_crypto_aesctr_aesni_stream(struct crypto_aesctr * stream, const uint8_t *
 /* crypto_aesctr_stream and crypto_aesctr_buf return nothing: they cannot report a failure, so they
  * must complete whatever the allocator says - every allocation attempted inside them is refused */
 #define NOFAIL(call) do { refuse_all++; call; refuse_all--; } while (0)
+#elif defined(DRV_MALLOC8)
+/* An allocator whose blocks are 8-byte but not 16-byte aligned (what malloc guarantees where
+ * max_align_t is 8 bytes; the library uses align_ptr.h for that reason): every block the LIBRARY
+ * allocates (expanded keys, also the one of its AES-NI self-test, stream objects) sits at an address
+ * that is 8 mod 16.  The driver's own blocks are left alone. */
+void * __real_malloc(size_t);
+void __real_free(void *);
+static int in_lib = 0;
+static void * m8[256];
+static void * m8base[256];
+
+void *
+__wrap_malloc(size_t n)
+{
+	char * p; char * base; int i;
+
+	if (!in_lib)
+		return (__real_malloc(n));
+	if ((base = __real_malloc(n + 32)) == NULL)
+		return (NULL);
+	p = base + 8 + (16 - ((uintptr_t)base & 15)) % 16;	/* a 16-aligned address, then 8 further */
+	for (i = 0; i < 256; i++)
+		if (m8[i] == NULL) { m8[i] = p; m8base[i] = base; return (p); }
+	abort();
+}
+
+void
+__wrap_free(void * p)
+{
+	int i;
+
+	for (i = 0; p != NULL && i < 256; i++)
+		if (m8[i] == p) { m8[i] = NULL; __real_free(m8base[i]); return; }
+	__real_free(p);
+}
+#define LIB(kind, secret, call) do { in_lib++; call; in_lib--; } while (0)
+#define NOFAIL(call) do { call; } while (0)
 #else
 #define LIB(kind, secret, call) do { call; } while (0)
 #define NOFAIL(call) do { call; } while (0)
